@@ -244,7 +244,8 @@ func runRouter(e *Env) {
 		})
 	}
 	// wait for the workload
-	deadline := s.Now() + time.Duration(c.Senders*c.SendsEach+10)*(c.P+60*time.Millisecond) + time.Duration(c.Busy+c.Lost+c.Inbound)*time.Second
+	lostGap := time.Duration(70*(c.Senders+1))*(c.P+time.Millisecond) + 500*time.Millisecond // see peerActions
+	deadline := s.Now() + time.Duration(c.Senders*c.SendsEach+10)*(c.P+60*time.Millisecond) + time.Duration(c.Busy+c.Lost+c.Inbound)*time.Second + time.Duration(c.Lost)*lostGap
 	for s.Now() < deadline {
 		if r.sendersLeft == 0 && r.stimLeft == 0 {
 			break
@@ -252,6 +253,8 @@ func runRouter(e *Env) {
 		s.SleepFor(10 * time.Millisecond)
 	}
 	r.drain = true
+	// (the peer stops at its next action once drain is set; nothing may arrive after the settle point)
+	e.WaitDone("peer", lostGap+time.Second, func() bool { return r.stimLeft == 0 })
 	s.SleepFor(2*time.Second + time.Duration(c.Retain+65)*(c.P+time.Millisecond))
 	r.settled = e.Stamp()
 	// the client must still be able to send
@@ -355,7 +358,7 @@ func (r *rtRun) peerActions() {
 	}
 	lastLost := time.Duration(-1 << 40)
 	for _, a := range acts {
-		if r.closed {
+		if r.closed || r.drain {
 			return
 		}
 		switch a.kind {
